@@ -428,6 +428,11 @@ func BindCase(c *ExifCase, rng *rand.Rand) (map[int]*Bound, error) {
 			for f := range fields {
 				if usedField[f] {
 					delete(fields, f)
+					if f == "CameraSerial" {
+						// CameraSerialNumber (IFD0) and BodySerialNumber (Exif) both feed this field and the library keeps
+						// whichever value it meets first in the stream: with both present the report is not determined
+						fields["~skip:CameraSerial"] = true
+					}
 				} else {
 					usedField[f] = true
 				}
